@@ -124,6 +124,57 @@ def concretise_names(hist, rng, hid):
     return {"id": hid, "nh": 1, "cfg": cfg, "universe": [], "steps": steps}
 
 
+U7 = [("a",), ("a", "b"), ("a", "b", "c"), ("a", "c"), ("b",), ("a", "", "b"), ("a", ".")]
+
+
+def names_cover(tier, seed):
+    """Direction A for C12, systematic: EVERY (set of live names, transaction of at most two records) pair of the
+    NamesMC universe as an execution of the real stack - the transition relation of NamesMC, one test per transition.
+    The packing below predicts which transactions are refused (they leave the state alone, so they share a history);
+    the verdict is TLC's (TraceStore), not this prediction: a wrong prediction only costs coverage."""
+    import itertools
+    rng = random.Random(seed)
+    wf = [n for n in U7 if all(c not in ("", ".", "..") for c in n)]
+
+    def conflict(names):
+        return any(a != b and b[:len(a)] == a for a in names for b in names)
+    lives = [set(c) for k in range(0, 4) for c in itertools.combinations(wf, k) if not conflict(set(c))]
+    txns = []
+    for k in (1, 2):
+        for names in itertools.combinations(U7, k):
+            for kinds in itertools.product("ad", repeat=k):
+                txns.append(list(zip(names, kinds)))
+
+    def step(txn):
+        refs = [{"n": "/".join(n), "v": ["v", "A", ""] if kd == "a" else ["d", "", ""]} for n, kd in sorted(txn)]
+        return [{"op": "add", "h": 1, "parts": [{"refs": refs, "logs": []}], "multi": False, "auto": False},
+                {"op": "view", "h": 1, "tag": "C12", "hasraw": False}]
+
+    def setup(live):
+        st = [{"op": "open", "h": 1}]
+        for n in sorted(live):
+            st += step([(n, "a")])
+        return st
+    hists, shorts = [], []
+    for li, live in enumerate(lives):
+        refused, accepted = [], []
+        for t in txns:
+            adds = {n for n, kd in t if kd == "a"}
+            dels = {n for n, kd in t if kd == "d"}
+            after = (live - dels) | adds
+            (accepted if all(n in wf for n in adds) and not conflict(after) else refused).append(t)
+        cfg = S.fix_cfg(S.rand_cfg(rng))
+        cfg["skipnamecheck"] = False
+        steps = setup(live)
+        for t in refused:
+            steps += step(t)
+        hists.append({"id": "cover-C12-L%d-refused" % li, "nh": 1, "cfg": cfg, "universe": [], "steps": steps})
+        for ti, t in enumerate(accepted):
+            shorts.append({"id": "cover-C12-L%d-t%d" % (li, ti), "nh": 1, "cfg": cfg, "universe": [], "steps": setup(live) + step(t)})
+    total = len(lives) * len(txns)
+    return hists + shorts, total
+
+
 WALKS = {
     "quick": {"C07": 60, "C13": 60, "C12": 60, "C03": 40, "C09": 0, "C11": 0},
     "thorough": {"C07": 1500, "C13": 1500, "C12": 1500, "C03": 800, "C09": 0, "C11": 0},
